@@ -1,9 +1,5 @@
 package db
 
-import (
-	"slices"
-)
-
 // TODO: DO NOT USE THIS! This is meant to be a temporary replacement for buffered transaction.
 // After state refactor, we can remove this.
 type BufferBatch struct {
@@ -19,7 +15,8 @@ func NewBufferBatch(txn IndexedBatch) *BufferBatch {
 }
 
 func (b *BufferBatch) Put(key, val []byte) error {
-	b.updates[string(key)] = slices.Clone(val)
+	// nil marks a deletion in updates: keep an empty (or nil) value distinguishable from it
+	b.updates[string(key)] = append([]byte{}, val...)
 	return nil
 }
 
